@@ -42,7 +42,10 @@ RULE = ('seeded random dag specs x c18gen extensions (1-4 script scopes: main + 
         'find_files/find_paths calls over generated sub-trees with extra=/exclude=/filter=/type=/'
         'cache=/file_type=/dist=, build-dir rooted Path objects and patterns, extra_dist, steps '
         'that consume the objects and plain-string references, ~30 % of all markers dist=False, '
-        'options.bfg hierarchy, project()/no project(), junk files) x back end x 3 archive formats '
+        'options.bfg hierarchy, project()/no project(), junk files; build-directory layouts: separate, '
+        'nested <src>/build with sources named build_aux/.. buildtools/.. build.cfg build-data/.. and a '
+        'whole-tree ** search excluding build/, sibling directories whose paths are string prefixes of '
+        'each other) x back end x 3 archive formats '
         '(zip on the fresh tree, gzip via dist or dist-gzip and bzip2 after building everything, zip '
         'again after files were added to searched directories); '
         'distinct = (dag shape, back end, set of (builtin, dist flag) pairs used); non-trivial = '
@@ -71,7 +74,8 @@ def floors(tier):
             'nodist-absent': 60, 'unmentioned-absent': 60, 'contents-compared': 600,
             'rebuild-configured': 15, 'rebuild-targets-compared': 45,
             'rebuild-steps-compared': 200, 'submodule-scripts-required': 15,
-            'late-additions:required': 10, 'distinct_nontrivial': 10}
+            'late-additions:required': 10, 'nested-builddir-files-absent': 50,
+            'distinct_nontrivial': 10}
 
 
 def cases(tier, seed):
@@ -93,7 +97,7 @@ class P18(dagrun.Project):
         ext = case['ext']
         super().__init__(case['spec'], case['backend'], root=root, conf_args=ext['conf_args'])
         self.src = src
-        self.bld = os.path.join(root, 'bld')
+        self.bld = c18gen.build_dir(ext, src)
         self.log = os.path.join(root, 'log-' + tag)
         self.env['VSTUB_LOG'] = self.log
         # stub transpilers (create the -o file, record): lex and Qt's rcc
@@ -202,7 +206,11 @@ def check_archive(res, wb, target, fmt, apath, top, tree, model, p):
             if why.startswith('script:submodule'):
                 res.ev('submodule-scripts-required')
         else:
-            res.violate(('member-missing', why), dict(w, member=name, mentioned_by=why))
+            res.violate(('member-missing', why),
+                        dict(w, member=name, mentioned_by=why,
+                             layout=p.ext.get('layout', 'separate'),
+                             builddir_path_is_string_prefix_of_member=os.path.join(
+                                 p.src, name).startswith(p.bld)))
     for name, why in nod.items():
         if name not in got:
             res.ev('nodist-absent')
@@ -212,6 +220,12 @@ def check_archive(res, wb, target, fmt, apath, top, tree, model, p):
             res.ev('unmentioned-absent')
     for name in sorted(opt):
         res.ev('optional-present' if name in got else 'optional-absent')
+    if p.ext.get('layout') == 'nested':
+        # the build directory is inside the source tree: its content stays out
+        inside = os.path.relpath(p.bld, p.src)
+        for name in walk_files(p.bld):
+            if posixpath.join(inside, name) not in got:
+                res.ev('nested-builddir-files-absent')
     # contents
     for name, data in got.items():
         if name in tree:
@@ -330,6 +344,7 @@ def run_case(case):
         res.evaluations = 0
         res.classes.update('item:' + u for u in used)
         res.classes.add('scopes:%d' % len(ext['scopes']))
+        res.classes.add('layout:' + ext.get('layout', 'separate'))
         res.sample = {'backend': backend, 'top': top, 'scopes': ext['scopes'],
                       'required': len(req), 'nodist': len(nod), 'optional': len(opt),
                       'build.bfg': tree['build.bfg'][-1800:]}
